@@ -81,6 +81,10 @@ def nativeOf (raced : List Nat) (s : State) (e : Ev) (s' : State) : List String 
   | .current t => lib t
   | .exit t _ => lib t
   | .tlsFail _ _ _ => ["kcfail"]
+  | .storeFail _ k r =>
+    match (s.key k).published with
+    | some n => (if r ∨ setCallsNotifier then ["gs" ++ sh n] else []) ++ ["ssfail" ++ sh n]
+    | none => []
   | .currentFail _ =>     -- the read-back `p_uthread_get_local` reaches `pthread_getspecific` only if it could make the native key
     match (s.key 0).published with
     | some n => ["gs" ++ sh n]
@@ -277,6 +281,10 @@ def step (s : St) (toks : List String) : IO (St × Bool) := do
             fin ([.createBegin a j o.named] ++ needKey m t 0 ++ [.createEnd a, .start t]) "create"
           else fin [.createBegin a j o.named, .createEnd a] "create"
       | ["start"] => fin (needKey m a 0 ++ [.start a]) "none"
+      | ["start", "fail2"] =>
+        -- both lazy `pthread_key_create` calls of the proxy (store, read-back) fail: nothing is stored, `is_stored == FALSE`
+        if (m.key 0).published.isSome ∨ (m.key 0).wrapperFreed ∨ s.pend.any (·.k = 0) then bad
+        else fin [.startUnstored a] "none" (status := "kcfail,kcfail")
       | ["set", k, v] =>
         match k.toNat?, v.toNat? with
         | some k, some v => fin (needKey m a k ++ [.setLocal a k v]) "none"
@@ -289,6 +297,16 @@ def step (s : St) (toks : List String) : IO (St × Bool) := do
         match k.toNat? with
         | some k => fin (needKey m a k ++ [.getLocal a k]) "value"
         | _ => bad
+      | ["set", k, v, "ssfail"] =>
+        -- the native `pthread_setspecific` reports an error: nothing is stored
+        match k.toNat?, v.toNat? with
+        | some k, some _ => fin (needKey m a k ++ [.storeFail a k false]) "none"
+        | _, _ => bad
+      | ["replace", k, v, "ssfail"] =>
+        -- … after `p_uthread_replace_local` has passed the old value to the notifier
+        match k.toNat?, v.toNat? with
+        | some k, some _ => fin (needKey m a k ++ [.storeFail a k true]) "none"
+        | _, _ => bad
       | ["set", k, v, "fail"] =>
         -- the lazy `pthread_key_create` fails: nothing is stored, no notifier
         match k.toNat?, v.toNat? with
@@ -317,7 +335,10 @@ def step (s : St) (toks : List String) : IO (St × Bool) := do
           | none =>   -- a thread the library did not create: the harness calls `current` (to learn the block), then `exit`, which returns
             fin (needKey m a 0 ++ [.current a, .exit a c]) "noexit"
         | none => bad
-      | ["return"] => fin [.ret a] "none"
+      | ["return"] =>
+        match (m.thr a).proxy with
+        | some h => fin [.retUnstored a h] "none"      -- the proxy drops the thread's reference itself
+        | none => fin [.ret a] "none"
       | ["end"] => fin [.threadEnd a] "none"
       | ["ref", h] =>
         match h.toNat? with
